@@ -184,7 +184,15 @@ def build(flavour="shared", hashes=None, symver_asm=False, cfg_undef=(), cfg_def
     """Build the analysed program. Returns dict with paths: dir, bc (linked, SSA),
     facts (json path), units, flags, params, incdir."""
     srcs, flags, params = units_and_flags()
-    key = "%s|%s|%s|%s|%s|v5" % (flavour, ",".join(sorted(hashes)) if hashes is not None else "-",
+    params = dict(params)
+    if hashes is not None and "descrypt" not in hashes:
+        # configure.ac: without descrypt the obsolete APIs are implicitly disabled
+        # (--enable-obsolete-api=no: COMPAT_ABI=no, ENABLE_OBSOLETE_API 0, crypt-des-obsolete.c not built)
+        params["COMPAT_ABI"] = "no"
+        cfg_define = dict(cfg_define or {})
+        cfg_define["ENABLE_OBSOLETE_API"] = "0"
+        srcs = [x for x in srcs if not x.endswith("crypt-des-obsolete.c")]
+    key = "%s|%s|%s|%s|%s|v6" % (flavour, ",".join(sorted(hashes)) if hashes is not None else "-",
                               symver_asm, ",".join(cfg_undef), json.dumps(cfg_define or {}, sort_keys=True))
     dig = input_digest(key)
     out = outdir or os.path.join(CACHE, dig)
